@@ -199,7 +199,7 @@ def project_market(m):
 
 
 def project(broker, actions=None):
-    out = {"wallet": {k.name: Decimal(v.balance) for k, v in broker.assets.items()}}
+    out = {"wallet": {k.name: Decimal(v.balance) for k, v in broker.assets.items() if v.balance != 0}}
     for info, m in broker.markets.items():
         out[info.name] = project_market(m)
     if actions is not None:
